@@ -48,8 +48,11 @@ def mc_graphs(module, nseg, maxlinks, name, invariants, lawlinks=None):
                           links=[dict(n1=l[0], t1=l[1], n2=l[2], t2=l[3], ov=l[4],
                                       tags=list(l[5]) if len(l) > 5 else [],
                                       twin=l[6] if len(l) > 6 else 0) for l in v[3]],
-                          conts=[dict(n1=c[0], o1=c[1], n2=c[2], o2=c[3], pos=c[4], ov=c[5], tags=list(c[6]))
-                                 for c in (v[4] if len(v) > 4 else [])]))
+                          conts=[dict(n1=c[0], o1=c[1], n2=c[2], o2=c[3], pos=c[4], ov=c[5], tags=list(c[6]),
+                                      eid=c[7]) for c in (v[4] if len(v) > 4 else [])],
+                          extra=[list(x) for x in (v[5] if len(v) > 5 else [])],
+                          only={0: "", 1: "gfa1", 2: "gfa2"}[v[6] if len(v) > 6 else 0],
+                          haschain=v[7] if len(v) > 7 else 0))
     if st is None or len(cases) != st[1]:
         raise MachineryError("%s printed %d cases for %s distinct states" % (module, len(cases), st))
     cases.sort(key=lambda c: json.dumps(c, sort_keys=True))     # TLC's print order depends on its workers
@@ -85,6 +88,23 @@ def has_placeholders(case):
     return bool(case.get("paths")) or any(not s.get("sline", 1) for s in case["segs"])
 
 
+def spellings(case, ver, rnd):
+    """A seeded spelling (0..3, see _spell_e) for every GFA2 edge of the case: dovetails, then
+    containments.  Identical twins are spelled like their original (they are meant to be repeated
+    lines)."""
+    if ver != "gfa2":
+        return None
+    sp, first = [], {}
+    for l in case["links"]:
+        key = (l["n1"], l["t1"], l["n2"], l["t2"], json.dumps(l["ov"]))
+        v = rnd.randrange(4)
+        if l.get("twin", 0) >= 2:
+            v = first.get(key, v)
+        first.setdefault(key, v)
+        sp.append(v)
+    return sp + [rnd.randrange(4) for _ in cont_lines(case, ver)]
+
+
 def anonymous(case):
     """the same case with every GFA2 edge written without identifier (`*`)"""
     c = dict(case)
@@ -92,7 +112,28 @@ def anonymous(case):
     return c
 
 
-def gfa_text(case, ver, order=None):
+def _flip(o):
+    return "-" if o == "+" else "+"
+
+
+def _spell_e(eid, a, b, ov, sp):
+    """One GFA2 E line in spelling sp (0..3).  a, b = (name, orientation, [beg, end]).  The same
+    alignment can be written with its two sides exchanged (bit 0) and / or read on the other strand,
+    i.e. with both orientations inverted (bit 1); the positions are those of the forward strands
+    and stay with their segment.  (An M-only or `*` alignment reads the same in all four.)"""
+    if sp & 1:
+        a, b = b, a
+    if sp & 2:
+        a, b = (a[0], _flip(a[1]), a[2]), (b[0], _flip(b[1]), b[2])
+    return ["E", eid, a[0] + a[1], b[0] + b[1]] + a[2] + b[2] + [ov]
+
+
+def cont_lines(case, ver):
+    """the containments of a case that are written in this version"""
+    return [c for c in case["conts"] if not (ver == "gfa2" and c.get("v1only"))]
+
+
+def gfa_text(case, ver, order=None, spell=None):
     """The GFA1 / GFA2 text of an enumerated case (list of lines).  A dovetail between the ends
     (n1,t1) and (n2,t2) is written from n1 to n2: leaving n1 through R is n1+, entering n2
     through L is n2+.  TraceGraphOps re-derives the graph from gfapy's own rendering of the
@@ -119,18 +160,19 @@ def gfa_text(case, ver, order=None):
         else:
             k = sum(n for n, _c in _cigar(l["ov"]))
             idtag = []
-            f = ["E", eid, l["n1"] + o1, l["n2"] + o2]
+            pos = []
             for n, t in ((l["n1"], l["t1"]), (l["n2"], l["t2"])):
                 if t == "R":
-                    f += ["%d%s" % (lens[n] - k, "$" if k == 0 else ""), "%d$" % lens[n]]
+                    pos.append(["%d%s" % (lens[n] - k, "$" if k == 0 else ""), "%d$" % lens[n]])
                 else:
-                    f += ["0", str(k)]
-            f.append(_ov1(l["ov"]))
+                    pos.append(["0", str(k)])
+            f = _spell_e(eid, (l["n1"], o1, pos[0]), (l["n2"], o2, pos[1]), _ov1(l["ov"]),
+                         spell[i] if spell else 0)
         out.append("\t".join(f + l["tags"] + idtag))
     if order:                                      # the dovetail lines in another order
         first = len(out) - len(case["links"])
         out[first:] = [out[first + k] for k in order]
-    for i, c in enumerate(case["conts"]):
+    for i, c in enumerate(cont_lines(case, ver)):
         # container n1 (orientation o1) contains n2 (o2) from position pos
         idtag = ["ID:Z:" + c["eid"]] if c["eid"] != "*" else []
         if ver == "gfa1":
@@ -138,12 +180,14 @@ def gfa_text(case, ver, order=None):
         else:
             e = c["pos"] + lens[c["n2"]]
             idtag = []
-            f = ["E", c["eid"], c["n1"] + c["o1"], c["n2"] + c["o2"],
-                 str(c["pos"]), "%d%s" % (e, "$" if e == lens[c["n1"]] else ""),
-                 "0", "%d$" % lens[c["n2"]], _ov1(c["ov"])]
+            f = _spell_e(c["eid"], (c["n1"], c["o1"], [str(c["pos"]), "%d%s" % (e, "$" if e == lens[c["n1"]] else "")]),
+                         (c["n2"], c["o2"], ["0", "%d$" % lens[c["n2"]]]), _ov1(c["ov"]),
+                         spell[len(case["links"]) + i] if spell else 0)
         out.append("\t".join(f + c["tags"] + idtag))
     for name, steps, ovs in case.get("paths", []):
         out.append("\t".join(["P", name, ",".join(steps), ",".join(ovs)]))
+    for f in case.get("extra", []):                # dependants (MC_LinearPaths, profile 6), field by field
+        out.append("\t".join(f))
     return out
 
 
@@ -284,7 +328,7 @@ def run_c14(job, pool=None):
     gfapy = _load_gfapy()
     signal.signal(signal.SIGVTALRM, _alarm)
     case, ver = job["case"], job["ver"]
-    text = gfa_text(case, ver)
+    text = gfa_text(case, ver, None, job.get("spell"))
     pool = pool or GPool()
     uni = _universe(case)
     res, exc, gfa = _guard(lambda: gfapy.Gfa(text, version=ver))
@@ -327,7 +371,7 @@ def _intended(case, ver):
     links = [dict(e1=[l["n1"], l["t1"]], e2=[l["n2"], l["t2"]],
                   ov=[dict(n=n, c=c) for n, c in _cigar(l["ov"])]) for l in case["links"]]
     # virtok: the case was built to contain placeholders (virtual lines)
-    return dict(segs=segs, links=links, nconts=len(case["conts"]), virtok=1 if has_placeholders(case) else 0)
+    return dict(segs=segs, links=links, nconts=len(cont_lines(case, ver)), virtok=1 if has_placeholders(case) else 0)
 
 
 # --------------------------------------------------------------------------
@@ -487,8 +531,9 @@ def c14_jobs(tier, seed, out=None):
         base, st1 = mc_graphs("MC_LinearPaths", 3, 3, "graphops-mc14-3", C14_INV)
         big, st2 = mc_graphs("MC_LinearPaths", 4, 2, "graphops-mc14-4", C14_INV)
         big = [c for c in big if len(c["links"]) == 2]
-        sample = rnd.sample(big, min(len(big), 1200))
-        bounds = "3 segments x <= 3 dovetails exhaustive; 4 segments x 2 dovetails: %d of %d sampled" % (
+        sample = rnd.sample(big, min(len(big), 900))
+        bounds = "3 segments x <= 3 dovetails exhaustive (with dependants, profile 6: the graphs with a chain and 4 %% " \
+                 "of the others); 4 segments x 2 dovetails: %d of %d sampled" % (
             len(sample), len(big))
         cases = base + sample
     else:
@@ -504,13 +549,18 @@ def c14_jobs(tier, seed, out=None):
     jobs = []
     for i, c in enumerate(cases):
         ident = has_identical_twins(c)
+        # graphs with dependants: those with a chain (a member and its dependants go), few of the others
+        if c["prof"] == 6 and not c.get("haschain") and rnd.random() >= 0.04:
+            continue
         for ver in ("gfa1", "gfa2"):
             if ver == "gfa2" and not gfa2_writable(c):
                 continue
             if ver == "gfa1" and ident:
                 continue
+            if c.get("only") and ver != c["only"]:
+                continue
             jobs.append(dict(id="c14-%d-%s" % (i, ver), ver=ver, case=anonymous(c) if ident else c,
-                             short=(c["prof"] == 3)))
+                             short=(c["prof"] == 3), spell=spellings(c, ver, rnd)))
     if out is not None:
         per = {}
         for j in jobs:
@@ -593,6 +643,9 @@ def check_c14(out, tier, seed):
         "edges); overlaps `*` or CIGARs of 1-2 "
         "operations over {M, =} of total length <= 2 (3M on the twins); with X: merge or clean refusal accepted",
         "sequences over the IUPAC nucleotide alphabet without U, both cases (complement table of LinearPaths.tla)",
+        "GFA2 edges in a seeded one of their four spellings (sides exchanged, both orientations inverted)",
+        "dependants of chain members and dovetails (containments, paths, fragments, gaps, groups): only that the "
+        "reference graph stays closed and symmetric without placeholders, and the untouched rest, is demanded",
     ]
 
 
@@ -618,7 +671,7 @@ def mc_multiply(nseg, maxlinks, lawlinks, name):
                           links=[dict(n1=l[0], t1=l[1], n2=l[2], t2=l[3], ov=l[4], tags=list(l[5]), eid=l[6],
                                       twin=l[7]) for l in v[3]],
                           conts=[dict(n1=c[0], o1=c[1], n2=c[2], o2=c[3], pos=c[4], ov=c[5], tags=list(c[6]),
-                                      eid=c[7]) for c in v[4]],
+                                      eid=c[7], v1only=c[8]) for c in v[4]],
                           paths=[[p_[0], list(p_[1]), list(p_[2])] for p_ in v[5]], opt=v[7]))
         for i, s in enumerate(cases[-1]["segs"]):
             s["sline"] = 1 if (i + 1) in v[6] else 0
@@ -639,7 +692,7 @@ def run_c15(job, pool=None):
     gfapy = _load_gfapy()
     signal.signal(signal.SIGVTALRM, _alarm)
     case, ver, a = job["case"], job["ver"], job["arg"]
-    text = gfa_text(case, ver, job.get("order"))
+    text = gfa_text(case, ver, job.get("order"), job.get("spell"))
     pool = pool or GPool()
     uni = _universe(case)
     seg = case["segs"][a["seg"] - 1]["name"]
@@ -683,8 +736,8 @@ def c15_jobs(tier, seed, out=None):
     if tier == "quick":
         shapes, args, given, st = mc_multiply(3, 3, 2, "graphops-mc15")
         plan = {0: 4, 1: 4, 2: 4, 3: 0.55}         # dovetails in the graph -> argument tuples per graph
-        fan = {0: 0, 1: 2, 2: 3, 3: 3, 4: 1}       # ... in a fan (profile 4)
-        plh = 1.5                                  # ... in a graph with placeholders (profile 5)
+        fan = {0: 0, 1: 2, 2: 3, 3: 2, 4: 1}       # ... in a fan (profile 4)
+        plh = 1.4                                  # ... in a graph with placeholders (profile 5)
     else:
         shapes, args, given, st = mc_multiply(3, 4, 2, "graphops-mc15")
         plan = {0: len(args), 1: len(args), 2: len(args), 3: 4, 4: 0.5}
@@ -705,9 +758,11 @@ def c15_jobs(tier, seed, out=None):
             nd = min(len(hubd), (m * 3 + 3) // 4)
             pick = rnd.sample(hubd, nd)
             pick += rnd.sample([a for a in hub if a not in pick], m - nd)
-        elif c["prof"] == 5:
+        elif c["prof"] in (5, 6):
             # a segment without S line is not a segment of the graph: not multiplied
             real = [a for a in heavy if c["segs"][a["seg"] - 1]["sline"]]
+            if c["prof"] == 6 and rnd.random() < 0.6:       # a placeholder named like an automatic copy name
+                real = [a for a in real if a["names"] == "auto"]
             m = int(plh) + (1 if rnd.random() < plh - int(plh) else 0)
             pick = rnd.sample(real, min(m, len(real)))
         else:
@@ -720,14 +775,14 @@ def c15_jobs(tier, seed, out=None):
                 pick = rnd.sample(heavy, m - 1) + [rnd.choice(light if rnd.random() < 0.5 else heavy)]
         for a in pick:
             # a repeated link exists in GFA2 only, placeholders for path steps in GFA1 only
-            ver = "gfa2" if has_identical_twins(c) else "gfa1" if has_placeholders(c) else \
+            ver = "gfa2" if has_identical_twins(c) else "gfa1" if c.get("paths") else \
                 rnd.choice(("gfa1", "gfa2"))
             order = list(range(nl))
             rnd.shuffle(order)                     # the dovetail lines are written in a seeded order
             build = rnd.choice(("vlevel0", "append")) if has_placeholders(c) else ""
             jobs.append(dict(id="c15-%d" % len(jobs), ver=ver, case=c, arg=a, given=given, order=order,
-                             build=build))
-        key = "%d%s" % (nl, {4: " (fan)", 5: " (placeholders)"}.get(c["prof"], ""))
+                             build=build, spell=spellings(c, ver, rnd)))
+        key = "%d%s" % (nl, {4: " (fan)", 5: " (placeholders)", 6: " (placeholders)"}.get(c["prof"], ""))
         per[key] = per.get(key, 0) + len(pick)
     if out is not None:
         out.add_cov(spec_states=st[1], spec_transitions=st[0], argument_tuples=len(args),
@@ -991,6 +1046,46 @@ def selftest():
         obs["lines"][idx]["p"] = len(r["pool"])
         _drop_line(obs, lambda x: x.get("otags") == ["zz:Z:selftest"], r["pool"])
     mutant("placeholder link of the rest lost", base15w, "C15.rest", lose_placeholder)
+    # dependants of a chain member: one of two containments survives the merge, pointing nowhere
+    g14d = _case([("A", "AACGT", ()), ("B", "CCGA", ()), ("X", "AC", ())], [("A", "R", "B", "L", 1, ())],
+                 [("B", "+", "X", "+", 1, 2, ()), ("B", "+", "X", "-", 2, -1, ())])
+    base14d = run_c14(dict(id="st14d", ver="gfa1", case=g14d, short=False))
+    variants.append(("c14 with containments on a chain member as recorded", base14d, None))
+
+    def survivor(r):
+        ln = next(ln for ln in r["pre"]["lines"] if r["pool"][ln["p"] - 1]["rt"] == "C")
+        r["m1"]["obs"]["lines"].append(dict(p=ln["p"], virt=0, own=1, fwd=[[k, 0] for k, _ in ln["fwd"]], br=[]))
+    mutant("a dependant of a removed member survives", base14d, "C14.graph", survivor)
+    # an edge of the segment with itself: its copy runs from the copy to the original
+    g15s = _case([("A", "AACGT", ()), ("B", "CCG", ())], [("A", "R", "A", "L", 1, ()), ("A", "R", "B", "L", 1, ())])
+    base15s = run_c15(dict(id="st15s", ver="gfa1", case=g15s, given=["cp1", "cp2"],
+                           arg=dict(seg=1, k=2, policy="off", names="auto")))
+    variants.append(("c15 with a self-loop as recorded", base15s, None))
+
+    def cross(x):
+        x["refs"][1]["id"] = "A"
+    mutant("copy of a self-loop runs to the original", base15s, "C15.edges",
+           lambda r: _repoint(r, "m1", lambda x: x["rt"] == "L" and all("*" in y["id"] for y in x["refs"]), cross))
+    # a placeholder (mentioned, undefined segment) carries the name the copy received
+    g15n = _case([("A", "AACGT", ()), ("B", "CCG", ()), ("A*2", "GTTA", ())], [("B", "R", "A*2", "L", 1, ())])
+    g15n["segs"][2]["sline"] = 0
+    base15n = run_c15(dict(id="st15n", ver="gfa1", case=g15n, given=["cp1", "cp2"],
+                           arg=dict(seg=1, k=2, policy="off", names="auto")))
+    variants.append(("c15 next to a placeholder named like a copy as recorded", base15n, None))
+
+    def same_name(r):
+        new = [x["name"] for x in r["pool"] if x["rt"] == "S" and x["name"] not in ("A", "B", "A*2")]
+        if len(new) != 1:
+            raise MachineryError("selftest: copy name not found: %s" % new)
+        idx = next(i for i, x in enumerate(r["pool"]) if x["rt"] == "S" and x["name"] == "A*2")
+        x = copy.deepcopy(r["pool"][idx])
+        x["name"] = new[0]
+        r["pool"].append(x)
+        for slot in (r["pre"], r["m1"]["obs"]):
+            for ln in slot["lines"]:
+                if ln["p"] == idx + 1:
+                    ln["p"] = len(r["pool"])
+    mutant("the copy took the name of a placeholder", base15n, "C15.names", same_name)
     recs = [r for _, r, _ in variants]
     for r in recs:
         if "broken" in r:
